@@ -3,7 +3,7 @@
 under seeded/BN-*: any VIOLATION is a false alarm of the machinery.
 
 usage: benign_check.py [-j N] [--all] [ids...]    --all runs all 20 property checks per refactor
-Writes seeded/BENIGN_RESULTS.json when run without ids."""
+Writes seeded/BENIGN_RESULTS.json when run without ids; with --all and ids it refreshes those entries."""
 import json, os, re, shutil, subprocess, sys, tempfile
 from concurrent.futures import ThreadPoolExecutor
 V = os.path.dirname(os.path.dirname(os.path.abspath(__file__)))
@@ -51,8 +51,14 @@ def main():
                         print("      ", p, l[:330], flush=True)
             else:
                 print("silent", sid, flush=True)
+    path = os.path.join(V, "seeded", "BENIGN_RESULTS.json")
     if not args:
-        json.dump(res, open(os.path.join(V, "seeded", "BENIGN_RESULTS.json"), "w"), indent=1, sort_keys=True)
+        json.dump(res, open(path, "w"), indent=1, sort_keys=True)
+    elif allp and os.path.exists(path):
+        # a partial --all run refreshes the entries of the refactors it ran
+        old = json.load(open(path))
+        old.update(res)
+        json.dump(old, open(path, "w"), indent=1, sort_keys=True)
     n = sum(1 for r in res.values() if r.get("alarms"))
     print(f"{n}/{len(res)} refactors raise an alarm")
 
